@@ -19,4 +19,9 @@ MUTANTS = [
     {"id": "c07-scheduled-counts-as-done", "expect": "fire", "edits": [(G, "                if repo_id in self.repos and repo_id not in done_repos)", "                if repo_id in self.repos and repo_id not in done_repos\n                and repo_id not in dfs_path_names[:-1])")]},
     # neutral
     {"id": "c07-n-rename", "expect": "silent", "edits": [(G, "not_processed_sub_components", "pending_components", 6)]},
+    {"id": "c07-bnmap-own-number-only", "expect": "fire", "edits": [(G, "                        for bn in buildnums:\n                            bn_map[bn.as_tuple()] = new_rbuild", "                        bn_map[new_rbuild.build_num.as_tuple()] = new_rbuild")]},
+    {"id": "c07-bnmap-first-number-only", "expect": "fire", "edits": [(G, "                        for bn in buildnums:\n                            bn_map[bn.as_tuple()] = new_rbuild", "                        for bn in buildnums[:1]:\n                            bn_map[bn.as_tuple()] = new_rbuild")]},
+    {"id": "c07-bnmap-copy-filtered", "expect": "fire", "edits": [(G, "                self.bn_map[k] = (rbranch, rbuild)", "                if rbuild.rcommit.is_explicit:\n                    self.bn_map[k] = (rbranch, rbuild)")]},
+    {"id": "c07-n-bnmap-copy-first-wins", "expect": "silent", "edits": [(G, "                self.bn_map[k] = (rbranch, rbuild)", "                if k not in self.bn_map:\n                    self.bn_map[k] = (rbranch, rbuild)")]},
+    {"id": "c07-n-bnmap-loopvar", "expect": "silent", "edits": [(G, "                        for bn in buildnums:\n                            bn_map[bn.as_tuple()] = new_rbuild", "                        for num in buildnums:\n                            bn_map[num.as_tuple()] = new_rbuild")]},
 ]
